@@ -7,6 +7,11 @@ var commonStub = []string{"Go scheduler choice (simrt cooperative scheduler, see
 var ingestStub = append([]string{"storage faults: a wrapper around LocalBackend adds latency, injected write failures and (optionally) honours context cancellation like the S3/Azure backends"}, commonStub...)
 
 var props = map[string]propCfg{
+	"C06": {Area: "walfile", Level: "fault_enumeration", Quick: 25 * time.Second, Thorough: 10 * time.Minute,
+		Real:  []string{"internal/wal Writer (all three append forms, rotation) producing the files under the simulator", "internal/wal Reader.ReadAll and Recovery.RecoverWithOptions on every faulted image"},
+		Stub:  commonStub,
+		Rule:  "Each generated log (1-8 appends of raw/enveloped/row entries, rotation by size) is written by the real Writer; then EVERY truncation offset of every file and single-byte corruptions of EVERY byte (all 255 values on entry-header and envelope bytes for files <= 700 bytes, 3-7 values elsewhere; thorough adds 300 seeded double faults + truncation per file) are read back. evaluations = fault positions evaluated; distinct_nontrivial = distinct generated logs (trace hash of the writer run).",
+		Assume: []string{"entry identity is semantic: the reader returns decoded entries, compared (with database) against the harness's own copy of the appended objects"}},
 	"C03": {Area: "ingest", Level: "exploration", Quick: 25 * time.Second, Thorough: 10 * time.Minute, Real: ingestReal, Stub: ingestStub},
 	"C04": {Area: "ingest", Level: "exploration", Quick: 30 * time.Second, Thorough: 10 * time.Minute, Real: ingestReal, Stub: ingestStub,
 		Assume: []string{"request bodies come from a seeded structure-aware generator plus byte-level mutations (not coverage-guided); import/TLE endpoints are not driven"}},
